@@ -325,3 +325,15 @@ Theorem C14_source_decisions :
   gain_valid_needs_on_target = true /\ skip_group_names = ["all"; "default"] /\ product_loop_shape_checked = true.
 Proof. exact interp_edges. Qed.
 Print Assumptions C14_source_decisions.
+
+(* MODEL = SPEC for the parts of the model that follow constants regenerated from the source: as long as the source
+   takes the documented decisions, the model of bandpass / gain corrections and of the dispatch IS the documented rule
+   (spec_* are written without any constant from the source).  All gain / bandpass theorems above are about the model. *)
+Theorem C14_model_is_spec :
+  (forall cf df segs, bandpass_corr cf df segs = spec_bandpass_corr cf df segs) /\
+  (forall N sols targets, gain_corr N sols targets = spec_gain_corr N sols targets) /\
+  (forall rsqrt t N sols names_at tbl targets,
+     gain_like_correction rsqrt t N sols names_at tbl targets =
+     spec_gain_like_correction rsqrt t N sols names_at tbl targets).
+Proof. exact (conj bandpass_is_spec (conj gain_is_spec dispatch_is_spec)). Qed.
+Print Assumptions C14_model_is_spec.
